@@ -43,13 +43,33 @@ theorem flush_quiet (n : Node) (i : Nat) (hq : Quiet n.s i) : flush n = n := by
   unfold flush sendFrames
   rw [sendFramesAux_empty _ _ _ hq.ringEmpty]
 
-theorem claimTick_solo (n : Node) (d : Dev) (hd : n.s.devs = [d]) (hq : Quiet n.s 0) : claimTick n = n := by
-  obtain ⟨d', hd', _, hct⟩ := hq.dev
-  rw [hd] at hd'; simp at hd'; subst hd'
+/-- device 0 is the one that acts; the node's other devices (if any) have nothing pending, and no device is in the middle of an
+address claim -/
+structure Lead (n : Node) (d : Dev) : Prop where
+  dev0 : n.s.devs[0]? = some d
+  others : ∀ k, 0 < k → (n.tp k).hasPending = false
+  claims : ∀ e ∈ n.s.devs, e.claimTimer.isEnabled n.s.flavor = false
+
+theorem map_id_of {α : Type} (f : α → α) : ∀ (l : List α), (∀ e ∈ l, f e = e) → l.map f = l
+  | [], _ => rfl
+  | a :: t, h => by rw [List.map_cons, h a (by simp), map_id_of f t (fun e he => h e (by simp [he]))]
+
+theorem claimTick_lead (n : Node) (hc : ∀ e ∈ n.s.devs, e.claimTimer.isEnabled n.s.flavor = false) : claimTick n = n := by
   unfold claimTick
-  have : (isAddressClaimStarted n.s.flavor n.s.now d).1 = d := by simp [isAddressClaimStarted, hct]
-  simp [hd, this]
-  rw [← hd]
+  have : n.s.devs.map (fun d => (isAddressClaimStarted n.s.flavor n.s.now d).1) = n.s.devs :=
+    map_id_of _ _ (fun e he => by simp [isAddressClaimStarted, hc e he])
+  rw [this]
+  simp
+
+theorem Lead.upd {n : Node} {d : Dev} (h : Lead n d) (tp : Nat → TpDev) (sl : List Slot) (out : List Delivery) (fs rxq : List Frame)
+    (htp : ∀ k, 0 < k → (tp k).hasPending = false) : Lead (n.upd tp sl out fs rxq) d := ⟨h.dev0, htp, h.claims⟩
+
+theorem Lead.same {n : Node} {d : Dev} (h : Lead n d) (sl : List Slot) (out : List Delivery) (fs rxq : List Frame) :
+    Lead (n.upd n.tp sl out fs rxq) d := h.upd _ _ _ _ _ h.others
+
+theorem Lead.src {n : Node} {d : Dev} (h : Lead n d) (hq : Quiet n.s 0) : d.source ≤ 251 := by
+  obtain ⟨d', hd', hs, _⟩ := hq.dev
+  rw [h.dev0] at hd'; cases hd'; exact hs
 
 /-- no product / configuration information answer is waiting for a retry -/
 def InfoIdle (n : Node) (i : Nat) : Prop := (n.info i).pendProd = none ∧ (n.info i).pendConf = none
@@ -75,16 +95,54 @@ theorem pendingDev_idle (n : Node) (i : Nat) (h : InfoIdle n i) : pendingDev n i
   simp only [hp, due, Bool.false_eq_true, ↓reduceIte, hc]
   cases (pendingTP n i).conf <;> rfl
 
-theorem pendingAll_solo (n : Node) (d : Dev) (hd : n.s.devs = [d]) (hi : InfoIdle n 0) :
+theorem pendingTP_tp_other (n : Node) (i k : Nat) (hk : k ≠ i) : (pendingTP n i).tp k = n.tp k := by
+  unfold pendingTP
+  simp only []
+  by_cases h1 : (n.tp i).pend.pgn ≠ 0 ∧ (n.tp i).timer.isTime n.s.flavor n.s.now = true
+  · rw [if_pos h1]
+    by_cases h2 : (n.tp i).pend.dst = 0xff
+    · rw [if_pos h2]
+      by_cases h3 : hasAllSent (setTimer (sendTPDT n i).1 i 50) i = true
+      · rw [if_pos h3]; simp [endSendTP, setTimer, sendTPDT, emit, Node.setTp, hk]
+      · rw [if_neg h3]; simp [setTimer, sendTPDT, emit, Node.setTp, hk]
+    · rw [if_neg h2]; simp [endSendTP, Node.setTp, hk]
+  · rw [if_neg h1]
+
+theorem foldl_skip (f : Node → Nat → Node) : ∀ (l : List Nat) (n : Node), (∀ k ∈ l, ∀ m : Node, m.tp k = n.tp k → f m k = m) →
+    l.foldl f n = n
+  | [], _, _ => rfl
+  | k :: t, n, h => by
+    rw [List.foldl_cons, h k (by simp) n rfl]
+    exact foldl_skip f t n (fun j hj m hm => h j (by simp [hj]) m hm)
+
+theorem pendingAll_solo (n : Node) (d : Dev) (hd : Lead n d) (hi : InfoIdle n 0) :
     pendingAll n = if (n.tp 0).hasPending then pendingTP n 0 else n := by
   unfold pendingAll
-  simp [hd, List.range_succ, pendingDev_idle n 0 hi]
+  have hlen : 0 < n.s.devs.length := by
+    rcases Nat.lt_or_ge 0 n.s.devs.length with h | h
+    · exact h
+    · have := hd.dev0; rw [List.getElem?_eq_none h] at this; cases this
+  obtain ⟨L, hL⟩ : ∃ L, n.s.devs.length = L + 1 := ⟨n.s.devs.length - 1, by omega⟩
+  rw [hL, List.range_succ_eq_map, List.foldl_cons]
+  rw [pendingDev_idle n 0 hi]
+  generalize hn1 : (if (n.tp 0).hasPending = true then pendingTP n 0 else n) = n1
+  have hoth : ∀ k, 0 < k → (n1.tp k).hasPending = false := by
+    intro k hk
+    rw [← hn1]
+    split
+    · rw [pendingTP_tp_other n 0 k (by omega)]; exact hd.others k hk
+    · exact hd.others k hk
+  apply foldl_skip
+  intro k hk m hm
+  obtain ⟨k', _, rfl⟩ := List.mem_map.1 hk
+  rw [hm, hoth (k' + 1) (by omega)]
+  simp
 
 theorem pendingTP_notdue (n : Node) (i : Nat) (h : (n.tp i).timer.isTime n.s.flavor n.s.now = false) : pendingTP n i = n := by
   unfold pendingTP; simp [h]
 
 /-- a poll of a quiet single-device node whose transport timer is not due: only the received frames are handled -/
-theorem poll_solo (n : Node) (d : Dev) (hd : n.s.devs = [d]) (hq : Quiet n.s 0) (hi : InfoIdle n 0)
+theorem poll_solo (n : Node) (d : Dev) (hd : Lead n d) (hq : Quiet n.s 0) (hi : InfoIdle n 0)
     (ht : (n.tp 0).hasPending = true → (n.tp 0).timer.isTime n.s.flavor n.s.now = false) (hlen : n.rxq.length ≤ 20) :
     poll n = claimTick { (rxList n.rxq n) with rxq := [] } := by
   unfold poll
@@ -96,16 +154,20 @@ theorem poll_solo (n : Node) (d : Dev) (hd : n.s.devs = [d]) (hq : Quiet n.s 0) 
   rw [h1, List.take_of_length_le hlen, List.drop_of_length_le hlen]
 
 /-- a poll with nothing to receive and no timer due changes nothing: extra polls in a schedule are harmless -/
-theorem poll_idle (n : Node) (d : Dev) (hd : n.s.devs = [d]) (hq : Quiet n.s 0) (hi : InfoIdle n 0)
+theorem poll_idle (n : Node) (d : Dev) (hd : Lead n d) (hq : Quiet n.s 0) (hi : InfoIdle n 0)
     (ht : (n.tp 0).hasPending = true → (n.tp 0).timer.isTime n.s.flavor n.s.now = false) (hrx : n.rxq = []) : poll n = n := by
   rw [poll_solo n d hd hq hi ht (by simp [hrx]), hrx]
   simp only [rxList, List.foldl_nil]
   have : ({ n with rxq := [] } : Node) = n := by rw [← hrx]
   rw [this]
-  exact claimTick_solo n d hd hq
+  exact claimTick_lead n hd.claims
 
-theorem findDev_solo (d : Dev) (h : d.source ≤ 253) : findDev [d] d.source = some 0 := by
-  simp [findDev, h, findIdx]
+theorem findDev_lead {devs : List Dev} {d : Dev} (h0 : devs[0]? = some d) (h : d.source ≤ 253) : findDev devs d.source = some 0 := by
+  cases devs with
+  | nil => cases h0
+  | cons e t =>
+    simp only [List.getElem?_cons_zero, Option.some.injEq] at h0; subst h0
+    simp [findDev, h, findIdx]
 
 
 /-! ## the application hands a message to `SendMsg` on a quiet node -/
@@ -201,18 +263,17 @@ theorem handleCTS_grant (n : Node) (i src b1 b2 : Nat) (d : Dev) (hq : Quiet n.s
 
 /-- **the sender polls with a CTS (window `c`, next packet `seq+1`) in its receive queue** -/
 theorem poll_cts (a : Node) (d : Dev) (m : Msg) (peer seq t0 tmo np : Nat) (sl : List Slot) (out : List Delivery)
-    (hd : a.s.devs = [d]) (hq : Quiet a.s 0) (hi : InfoIdle a 0) (hm : m.dst = peer) (hpeer : peer < 255) (hlen : m.len ≤ 223)
+    (hd : Lead a d) (hq : Quiet a.s 0) (hi : InfoIdle a 0) (hm : m.dst = peer) (hpeer : peer < 255) (hlen : m.len ≤ 223)
     (hpgn : m.pgn < 2^24) (htmo : tmo ≤ 100) (ht0 : t0 ≤ a.s.now ∧ a.s.now < t0 + tmo) (h64 : a.s.now + 100 < M64) (hseq : seq < 255) :
     poll (a.upd (txTp a m seq t0 tmo) sl out [] [cmFrame peer d.source (ctsBytes m.pgn np (seq + 1))]) =
       a.upd (txTp a m (seq + min (tpCtsPackets np) (tpPacketCount m.len - seq)) a.s.now 100) sl out
         ((List.range (min (tpCtsPackets np) (tpPacketCount m.len - seq))).map fun x => dtFrame d.source m (seq + x)) [] := by
   have hsrc : d.source ≤ 251 := by
-    obtain ⟨d', hd', hs, _⟩ := hq.dev
-    rw [hd] at hd'; simp at hd'; subst hd'; exact hs
-  have hd0 : a.s.devs[0]? = some d := by rw [hd]; rfl
+    exact hd.src hq
+  have hd0 : a.s.devs[0]? = some d := hd.dev0
   generalize hN : a.upd (txTp a m seq t0 tmo) sl out [] [cmFrame peer d.source (ctsBytes m.pgn np (seq + 1))] = N
   have hNq : Quiet N.s 0 := by subst hN; exact upd_quiet _ _ _ _ _ _ hq
-  have hNd : N.s.devs = [d] := by subst hN; exact hd
+  have hNd : Lead N d := by subst hN; exact hd.upd _ _ _ _ _ (fun k hk => by simp [txTp, Nat.ne_of_gt hk, hd.others k hk])
   have hNt : (N.tp 0).timer.isTime N.s.flavor N.s.now = false := by
     subst hN
     simp only [upd_tp, txTp, ↓reduceIte, upd_flavor, upd_now]
@@ -223,14 +284,14 @@ theorem poll_cts (a : Node) (d : Dev) (m : Msg) (peer seq t0 tmo np : Nat) (sl :
   simp only [rxList, List.foldl_cons, List.foldl_nil]
   rw [rxFrame_cm N peer d.source _ (by omega) (by omega) (by simp [ctsBytes, le3])]
   unfold handleCM
-  have hfd : findDev N.s.devs d.source = some 0 := by rw [hNd]; exact findDev_solo d (by omega)
+  have hfd : findDev N.s.devs d.source = some 0 := findDev_lead hNd.dev0 (by omega)
   simp only [hfd, ctsBytes, le3, List.cons_append, List.nil_append, List.getD_cons_zero, List.getD_cons_succ, le3_sum m.pgn hpgn]
   simp only [Nat.reduceEqDiff, or_self, ↓reduceIte]
   have hmod : (seq + 1) % 256 = seq + 1 := Nat.mod_eq_of_lt (by omega)
   rw [hmod]
   have hpend : (N.tp 0).pend = m := by subst hN; simp [txTp]
   have hns : (N.tp 0).nextSeq = seq := by subst hN; simp [txTp]
-  have hcts := handleCTS_grant N 0 peer (tpCtsPackets np) (seq + 1) d hNq (by rw [hNd]; rfl) (by rw [hpend]; exact hm)
+  have hcts := handleCTS_grant N 0 peer (tpCtsPackets np) (seq + 1) d hNq hNd.dev0 (by rw [hpend]; exact hm)
     (by omega) (by omega) (by rw [hpend]; exact hlen) (by unfold tpCtsPackets; omega) (by rw [hns])
   rw [hpend] at hcts
   rw [hcts, hns]
@@ -243,7 +304,7 @@ theorem poll_cts (a : Node) (d : Dev) (m : Msg) (peer seq t0 tmo np : Nat) (sl :
         ((List.range (min (tpCtsPackets np) (tpPacketCount m.len - seq))).map fun x => dtFrame d.source m (seq + x)) [] := by
     intro X hX
     subst hX
-    exact claimTick_solo _ d hd (upd_quiet _ _ _ _ _ _ hq)
+    exact claimTick_lead _ hd.claims
   apply hres
   unfold Node.upd
   congr 1
